@@ -5,9 +5,8 @@ sys.path.insert(0, '/verif')
 from jobs import JOBS, PROPS
 
 NA = {
-    'C08': 'CompressedPGMIndex: every query reads sdsl::sd_vector / select_support_sd / int_vector built through sd_vector_builder and sdsl::memory_manager (atomics, realloc, static singletons, red-black tree): not encodable with the IR->C translator within reach; stubbing select by its specification would verify the stub',
-    'C09': 'BucketingPGMIndex: the probe translates after stubbing sdsl::memory_monitor::record but the top-level table is an sdsl::int_vector whose storage comes from memory_manager::resize/realloc with a data-dependent size; not finished, not claimed',
-    'C10': 'EliasFanoPGMIndex: pred() reads ef.low/high and the select supports of sdsl::sd_vector, whose internal tables have no compact invariant to assume and whose construction is the sdsl heap code of C08',
+    'C08': 'CompressedPGMIndex: every level stores its intercepts in an sdsl::sd_vector with a select support, the construction that already exceeds 29 GB of SAT memory for one key in the Elias-Fano probe (C10), plus std::sort/std::round/long double slope merging on top; not attempted beyond the translation probe (needs llvm.fmuladd.f80, done), not claimed',
+    'C10': 'EliasFanoPGMIndex: attempted (units/eliasfano.cpp): the real sdsl::sd_vector / select_support_mcl code translates and the differential run agrees with the real build on 400/400 cases, but the SAT instance for a single key (n = 1) needs more than 29 GB (killed) - the select-support construction (4096-entry blocks) dominates; no verdict, not claimed',
     'C12': 'the property is about fstream, stat, open, mmap and bytes on disk: code behind I/O and libstdc++.so; modelling the file system would decide a property of the model',
     'C19': 'copy/move of the vector-only classes is the container model\'s own copy/move (libstdc++ container code is replaced by the model); the interesting case (CompressedLevel::sel1 pointing into the source) is sdsl code (C08)',
 }
